@@ -181,8 +181,10 @@ package crdt
 // trust cache is what the RPC authorization and the pubsub validator read), whatever came before it in the list ----
 //@ ghost var trustOfferedN int
 //@ func (css *Consensus) Trust
-//@   opts trusted
+//@   property C07 C02
 //@   counts trustOfferedN when true
+//@   ensures [a-peer-reported-trusted-is-recorded] err == nil ==> in(any(pid), css.trustedPeers)
+//@   ensures [earlier-trust-is-kept] forall k any :: in(k, old(css.trustedPeers)) ==> in(k, css.trustedPeers)
 //@   modifies *css
 //@ func (css *Consensus) setup
 //@   property C07
